@@ -189,6 +189,21 @@ def oracle(case):
         nt = True
         labels.append("stamp-on-boundary")
 
+    # the same series object edited in place, then converted again
+    v3 = np.where(np.isnan(vals), np.nan, np.abs(vals) * 0.5 + 1.0)
+    se.iloc[:] = v3
+    r3 = dutils.var2h(se, nbsec_per_period=P, maxgapsec=maxgap,
+                      rainfall=rainfall)
+    exp3 = reference(ts, v3, hstart, P, nper, rainfall, maxgap)
+    for i, (v, (ev, must, may, nov, partial)) in enumerate(zip(r3.values,
+                                                               exp3)):
+        if i == nper - 1 or must or np.isnan(v):
+            continue
+        if not abs(v - ev) <= 1e-9 * max(1., abs(ev)):
+            raise Violation(f"var2h called again after the series values "
+                            f"were edited in place: period {i} {v!r}, "
+                            f"expected {ev!r}")
+    se.iloc[:] = vals
     # same wall-clock stamps in another unit / zone give the same result
     alt_unit = UNITS[(UNITS.index(case["unit"]) + 1) % 4]
     alt_zone = ZONES[(ZONES.index(case["zone"]) + 1) % 4]
